@@ -9,13 +9,16 @@ namespace TM.C13
 theorem shapeS_err_iff_apS_err (ap : AP) (size : Int) (sls : List (Option Sl))
     (hl : ap.strides.length = ap.shape.length) :
     (∃ tag, shapeS ap.shape sls = .error (.err tag)) ↔ (∃ tag, ap.S size sls = .error (.err tag)) := by
-  sorry
+  constructor
+  · intro ⟨tag, h⟩; exact ⟨tag, (ShapeAlg.shapeS_error_iff_apS_error ap size sls hl _).1 h⟩
+  · intro ⟨tag, h⟩; exact ⟨tag, (ShapeAlg.shapeS_error_iff_apS_error ap size sls hl _).2 h⟩
 
 /-- Neither of them panics on a pattern with one stride per axis. -/
 theorem shapeS_apS_no_panic (ap : AP) (size : Int) (sls : List (Option Sl))
     (hl : ap.strides.length = ap.shape.length) :
     (∀ tag, shapeS ap.shape sls ≠ .error (.panic tag)) ∧ (∀ tag, ap.S size sls ≠ .error (.panic tag)) := by
-  sorry
+  refine ⟨fun tag => ShapeAlg.shapeS_not_panic _ _ tag, fun tag h => ?_⟩
+  exact ShapeAlg.shapeS_not_panic _ _ tag ((ShapeAlg.shapeS_error_iff_apS_error ap size sls hl _).2 h)
 
 /-- Agreement of the predicted and the executed shape — partial: outside the defect regions
     F3 (`Shape.S` floors stepped lengths: `Excl_shapeSFloor`) and F25 (one-cell windows become
@@ -25,20 +28,21 @@ theorem shapeS_eq_apS_partial (ap nap : AP) (size ndStart ndEnd : Int) (sls : Li
     (h : ap.S size sls = .ok (nap, ndStart, ndEnd)) (hns : ndEnd - ndStart ≠ 1)
     (hx : Excl_shapeSFloor ap.shape sls = false) :
     shapeS ap.shape sls = .ok nap.shape := by
-  sorry
+  have _ := hl  -- implied by `h`; not needed
+  exact ShapeAlg.shapeS_eq_apS_of_excl ap nap size ndStart ndEnd sls h hns hx
 
 /-- The full statement fails (finding F3): witness (2,5)[:, 0:5:2]. -/
 theorem shapeS_eq_apS_full_fails :
     ∃ (ap nap : AP) (s e : Int) (sls : List (Option Sl)),
       ap.strides.length = ap.shape.length ∧ ap.S 10 sls = .ok (nap, s, e) ∧ e - s ≠ 1 ∧
       (match shapeS ap.shape sls with | .ok sh => sh != nap.shape | _ => true) = true := by
-  sorry
+  exact ⟨{ shape := [2, 5], strides := [5, 1] }, _, _, _, [none, some ⟨0, 5, 2⟩], rfl, rfl, by decide, by decide⟩
 
 /-- `Reshape` refuses a shape of different total size with an error and leaves the tensor as it is. -/
 theorem reshape_size_mismatch (st : St) (t : Dense) (dims : List Int)
     (h : totalSize t.shape ≠ totalSize dims) :
     ∃ t', t.reshape st dims = .ok (.errKept t') ∧ t' = t := by
-  sorry
+  exact ⟨t, ShapeAlg.reshape_mismatch st t dims h, rfl⟩
 
 /-- On a plain tensor (no pending transpose, window = size) a reshape of equal size succeeds, sets the
     requested shape with the default strides of the tensor's own data order, and touches neither the
@@ -48,7 +52,7 @@ theorem reshape_plain (st : St) (t : Dense) (dims : List Int)
     (hlen : (t.win.len : Int) = totalSize dims) (hne : dims ≠ []) :
     ∃ t', t.reshape st dims = .ok (.ok st t') ∧ t'.win = t.win ∧ t'.ap.shape = dims ∧
       t'.ap.strides = Dense.defaultStrides t.ap.o.col dims ∧ t'.ap.o = t.ap.o := by
-  sorry
+  exact ⟨_, ShapeAlg.reshape_plain' st t dims hsz hold hv hlen hne, rfl, rfl, rfl, rfl⟩
 
 /-- A "covering" access pattern: one non-negative stride per axis, positive dimensions, and the
     largest address lies inside a window of `len` cells. (All in-box addresses are then in-window.) -/
@@ -59,12 +63,16 @@ def Covers (ap : AP) (len : Int) : Prop :=
 /-- Every in-box coordinate of a covering pattern addresses a cell of the window. -/
 theorem covers_inbox (ap : AP) (len : Int) (h : Covers ap len) (c : List Int) (hc : inBox ap.shape c = true) :
     0 ≤ dot c ap.strides ∧ dot c ap.strides < len := by
-  sorry
+  obtain ⟨_, hs, _, hlt⟩ := h
+  have := ShapeAlg.dot_box_bounds ap.shape ap.strides c hs hc
+  exact ⟨this.1, by omega⟩
 
 /-- Default row-major strides cover exactly the backing. -/
 theorem covers_default (shape : Shape) (hpos : ∀ d ∈ shape, 0 < d) :
     Covers { shape := shape, strides := calcStrides shape } (prod shape) := by
-  sorry
+  refine ⟨calcStrides_length shape, ShapeAlg.calcStrides_nonneg shape hpos, hpos, ?_⟩
+  show dot (shape.map (· - 1)) (calcStrides shape) < prod shape
+  rw [ShapeAlg.dot_calcStrides_max]; omega
 
 /-- **Slicing preserves the invariant** (non-negative steps, non-empty ranges; the scalar special
     case included), hence nested slicing to any depth stays in bounds. -/
@@ -73,14 +81,16 @@ theorem slice_covers (ap nap : AP) (size ndStart ndEnd : Int) (sls : List (Optio
     (hstep : ∀ s ∈ sls, ∀ x, s = some x → 0 ≤ x.step ∧ x.start < x.stop)
     (h : ap.S size sls = .ok (nap, ndStart, ndEnd)) :
     0 ≤ ndStart ∧ ndStart ≤ ndEnd ∧ ndEnd ≤ size ∧ Covers nap (ndEnd - ndStart) := by
-  sorry
+  obtain ⟨_, hs, hd, hlt⟩ := hcov
+  exact ShapeAlg.apS_cov ap nap size ndStart ndEnd sls hs hd hlt hstep h
 
 /-- Lazy transposition preserves the invariant (rank ≤ 5 through `unsafePermute_gather`). -/
 theorem T_covers (ap tap : AP) (len : Int) (axes ax' : List Int) (hr : ap.shape.length ≤ 5)
     (hcov : Covers ap len) (hp : isPerm axes ap.shape.length = true)
     (h : ap.T axes = .ok (.ok tap ax')) (hnv : isVector ap.shape = false) :
     Covers tap len := by
-  sorry
+  obtain ⟨hl, hs, hd, hlt⟩ := hcov
+  exact ShapeAlg.apT_cov ap tap len axes ax' hr hl hs hd hlt hp h hnv
 
 -- non-vacuity
 example : Covers { shape := [2, 3], strides := [3, 1] } 6 := by
